@@ -711,6 +711,18 @@ impl<'a, Key, Value, MapFn, MappedValue> Iterator for MultiGetMapIterator<'a, Ke
 }
 
 
+/// Read-only accessors used by the model-checking harness in /verif (never compiled without `--cfg cached_verif`).
+#[cfg(cached_verif)]
+impl<Key, Value> CacheD<Key, Value>
+    where Key: Hash + Eq + Send + Sync + Clone + 'static,
+          Value: Send + Sync + 'static {
+    pub(crate) fn verif_store(&self) -> &Arc<Store<Key, Value>> { &self.store }
+    pub(crate) fn verif_admission_policy(&self) -> &Arc<AdmissionPolicy<Key>> { &self.admission_policy }
+    pub(crate) fn verif_pool(&self) -> &Pool<AdmissionPolicy<Key>> { &self.pool }
+    pub(crate) fn verif_ttl_ticker(&self) -> &Arc<TTLTicker> { &self.ttl_ticker }
+    pub(crate) fn verif_is_shutting_down_peek(&self) -> bool { crate::verif_rt::peek::atomic_bool(&self.is_shutting_down) }
+}
+
 #[cfg(test)]
 mod tests {
     use std::sync::Arc;
